@@ -65,6 +65,11 @@ def gen_case(rng, k, maxlen=16):
             sel(c); lines.append('obs')
         elif x < 0.9:
             sel(rng.randrange(3)); c = rng.choice([j for j in range(3) if j != m.cur])
+            if m.r.c and m.wf and rng.random() < 0.4:
+                # a value that needs more than the 6 significant digits of the default stream precision (on a maximal simplex: stays monotone)
+                tops = [t_ for t_ in sorted(m.r.c) if not any(set(t_) < set(u_) for u_ in m.r.c)]
+                t_ = rng.choice(tops); big_ = rng.choice([1234567, 7654321, 1000001])
+                lines.append('assign %d %s' % (big_, ' '.join(map(str, t_)))); m.r.assign(big_, list(t_))
             lines.append('text %d' % c); m.slot_op('text', [c]); lines.append('eq %d %d' % (m.cur, c))
             sel(c); lines.append('obs')
         else:
